@@ -354,6 +354,9 @@ pub struct CreateReq {
     pub start_in_secs: u64,
     /// open edition only: sale end, seconds after the start
     pub end_after_secs: Option<u64>,
+    /// requested collection start_trading_time, seconds after the sale start (None = not requested)
+    #[serde(default)]
+    pub trading_after_start_secs: Option<u64>,
 }
 impl CreateReq {
     /// a request every default factory accepts (pays exactly `fee`)
@@ -366,18 +369,23 @@ impl CreateReq {
             mint_price: (NATIVE.to_string(), 100_000_000),
             start_in_secs: 100,
             end_after_secs: if kind == FactoryKind::OpenEdition { Some(10_000) } else { None },
+            trading_after_start_secs: None,
         }
     }
 }
 
 pub fn collection_params_json(code_id: u64, creator: &str) -> Value {
+    collection_params_json_t(code_id, creator, None)
+}
+/// with a requested start_trading_time (nanoseconds)
+pub fn collection_params_json_t(code_id: u64, creator: &str, trading: Option<u64>) -> Value {
     json!({
         "code_id": code_id, "name": "Collection Name", "symbol": "COL",
         "info": {
             "creator": creator, "description": "Stargaze Monkeys",
             "image": "https://example.com/image.png",
             "external_link": "https://example.com/external.html",
-            "explicit_content": false, "start_trading_time": null,
+            "explicit_content": false, "start_trading_time": trading.map(|t| t.to_string()),
             "royalty_info": { "payment_address": creator, "share": "0.1" }
         }
     })
@@ -387,7 +395,11 @@ pub fn collection_params_json(code_id: u64, creator: &str) -> Value {
 pub fn create_msg_json(app: &App, kind: FactoryKind, creator: &str, r: &CreateReq) -> Value {
     let now = chain::now(app);
     let start = now + r.start_in_secs * 1_000_000_000;
-    let cp = collection_params_json(r.collection_code_id, creator);
+    let cp = collection_params_json_t(
+        r.collection_code_id,
+        creator,
+        r.trading_after_start_secs.map(|t| start + t * 1_000_000_000),
+    );
     let init = match kind {
         FactoryKind::Base => Value::Null,
         FactoryKind::Vending => json!({
